@@ -54,9 +54,9 @@ impl vstd::std_specs::cmp::PartialOrdSpecImpl for DateTime {
 pub open spec fn int_cmp(a: int, b: int) -> core::cmp::Ordering {
     if a < b { core::cmp::Ordering::Less } else if a == b { core::cmp::Ordering::Equal } else { core::cmp::Ordering::Greater }
 }
-pub proof fn lemma_dt_cmp_rank(a: DateTime, b: DateTime)
+pub broadcast proof fn lemma_dt_cmp_rank(a: DateTime, b: DateTime)
     requires dt_ok(a), dt_ok(b),
-    ensures dt_cmp(a, b) == int_cmp(dt_rank(a), dt_rank(b)),
+    ensures #[trigger] dt_cmp(a, b) == int_cmp(dt_rank(a), dt_rank(b)),
 {
     if a is Point && b is Point {
         let p = a->Point_0; let q = b->Point_0;
